@@ -11,8 +11,11 @@ use crate::util::Fnv;
 
 pub const VERIF_DIR: &str = "/verif";
 /// where evidence/ and replays/ are written (self-test runs redirect them with MC_OUT_DIR)
+pub fn verif_root() -> PathBuf {
+    PathBuf::from(std::env::var("MC_VERIF_ROOT").unwrap_or_else(|_| VERIF_DIR.to_string()))
+}
 pub fn out_dir() -> PathBuf {
-    PathBuf::from(std::env::var("MC_OUT_DIR").unwrap_or_else(|_| VERIF_DIR.to_string()))
+    std::env::var("MC_OUT_DIR").map(PathBuf::from).unwrap_or_else(|_| verif_root())
 }
 
 #[derive(Clone, Copy, Debug, PartialEq, Eq)]
@@ -190,7 +193,7 @@ pub struct KnownFile {
     pub entries: Vec<KnownEntry>,
 }
 pub fn load_known() -> KnownFile {
-    let p = Path::new(VERIF_DIR).join("known_findings.json");
+    let p = verif_root().join("known_findings.json");
     match std::fs::read_to_string(&p) {
         Ok(s) => serde_json::from_str(&s).unwrap_or_else(|e| {
             eprintln!("MACHINERY: cannot parse {}: {e}", p.display());
